@@ -1,4 +1,196 @@
-//! C11 ops: ECIES (BIE1).  (filled in below)
-pub fn run(_op: &str, _args: &[String]) -> Option<String> {
-    None
+//! C11 ops: ECIES (BIE1).  Private keys are 32 bytes, public keys SEC1 bytes; invalid key arguments
+//! (constructor failure) are reported as ERR.  See coq/Run/Exec_C11.v for the op formats.
+use crate::util::*;
+use bsv::{ECIESCiphertext, PrivateKey, PublicKey, ECIES};
+
+enum Karg<T> {
+    Bad,
+    Invalid,
+    Good(T),
+}
+
+fn arg_priv(args: &[String], i: usize) -> Karg<PrivateKey> {
+    match arg_bytes(args, i) {
+        None => Karg::Bad,
+        Some(b) => match PrivateKey::from_bytes(&b) {
+            Ok(k) => Karg::Good(k),
+            Err(_) => Karg::Invalid,
+        },
+    }
+}
+fn arg_pub(args: &[String], i: usize) -> Karg<PublicKey> {
+    match arg_bytes(args, i) {
+        None => Karg::Bad,
+        Some(b) => match PublicKey::from_bytes(&b) {
+            Ok(k) => Karg::Good(k),
+            Err(_) => Karg::Invalid,
+        },
+    }
+}
+fn arg_bool(args: &[String], i: usize) -> Option<bool> {
+    match args.get(i).map(|s| s.as_str()) {
+        Some("0") => Some(false),
+        Some("1") => Some(true),
+        _ => None,
+    }
+}
+
+fn show_msg(r: Result<Vec<u8>, bsv::BSVErrors>) -> String {
+    match r {
+        Ok(m) => format!("OK:{}", show_bytes(&m)),
+        Err(_) => "ERR".into(),
+    }
+}
+
+fn dec_ser(ser: &[u8], haspk: bool, d: &PrivateKey, sender: &PublicKey) -> String {
+    show_msg(ECIESCiphertext::from_bytes(ser, haspk).and_then(|c| ECIES::decrypt(&c, d, sender)))
+}
+
+macro_rules! key {
+    ($e:expr) => {
+        match $e {
+            Karg::Bad => return Some("BADARG".to_string()),
+            Karg::Invalid => return Some("ERR".to_string()),
+            Karg::Good(k) => k,
+        }
+    };
+}
+macro_rules! arg {
+    ($e:expr) => {
+        match $e {
+            Some(v) => v,
+            None => return Some("BADARG".to_string()),
+        }
+    };
+}
+
+pub fn run(op: &str, args: &[String]) -> Option<String> {
+    Some(match op {
+        "ecies.encrypt" => {
+            if args.len() != 4 {
+                return Some("BADARG".into());
+            }
+            let msg = arg!(arg_bytes(args, 2));
+            let excl = arg!(arg_bool(args, 3));
+            let a = key!(arg_priv(args, 0));
+            let b = key!(arg_pub(args, 1));
+            match ECIES::encrypt(&msg, &a, &b, excl) {
+                Ok(c) => match c.get_cipher_keys() {
+                    Some(k) => format!(
+                        "OK:{};{};{};{}",
+                        show_bytes(&c.to_bytes()),
+                        hex::encode(k.get_iv()),
+                        hex::encode(k.get_ke()),
+                        hex::encode(k.get_km())
+                    ),
+                    None => "OK:nokeys".into(),
+                },
+                Err(_) => "ERR".into(),
+            }
+        }
+        "ecies.pub" => {
+            if args.len() != 3 {
+                return Some("BADARG".into());
+            }
+            let msg = arg!(arg_bytes(args, 2));
+            let a = key!(arg_priv(args, 0));
+            let b = key!(arg_pub(args, 1));
+            match b.encrypt_message(&msg, &a) {
+                Ok(c) => format!("OK:{}", show_bytes(&c.to_bytes())),
+                Err(_) => "ERR".into(),
+            }
+        }
+        "ecies.decrypt" => {
+            if args.len() != 4 {
+                return Some("BADARG".into());
+            }
+            let ser = arg!(arg_bytes(args, 2));
+            let haspk = arg!(arg_bool(args, 3));
+            let b = key!(arg_priv(args, 0));
+            let a = key!(arg_pub(args, 1));
+            dec_ser(&ser, haspk, &b, &a)
+        }
+        "ecies.parse" => {
+            if args.len() != 2 {
+                return Some("BADARG".into());
+            }
+            let ser = arg!(arg_bytes(args, 0));
+            let haspk = arg!(arg_bool(args, 1));
+            match ECIESCiphertext::from_bytes(&ser, haspk) {
+                Ok(c) => {
+                    let back = c.to_bytes();
+                    let n = back.len();
+                    // public key bytes are not exposed by an accessor: they are the bytes between the magic and the body
+                    let body = c.get_ciphertext();
+                    let mac = c.get_hmac();
+                    let pk = if n >= 4 + body.len() + mac.len() && n - 4 - body.len() - mac.len() > 0 {
+                        hex::encode(&back[4..n - body.len() - mac.len()])
+                    } else {
+                        "-".to_string()
+                    };
+                    let ext = match c.extract_public_key().and_then(|p| p.to_bytes()) {
+                        Ok(p) => hex::encode(p),
+                        Err(_) => "ERR".into(),
+                    };
+                    format!("OK:{};{};{};{};{}", show_bytes(&back), pk, show_bytes(&body), hex::encode(mac), ext)
+                }
+                Err(_) => "ERR".into(),
+            }
+        }
+        "ecies.flip" => {
+            if args.len() != 5 {
+                return Some("BADARG".into());
+            }
+            let ser = arg!(arg_bytes(args, 2));
+            let haspk = arg!(arg_bool(args, 3));
+            let bit = arg!(arg_u64(args, 4)) as usize;
+            if bit >= ser.len() * 8 {
+                return Some("BADARG".into());
+            }
+            let b = key!(arg_priv(args, 0));
+            let a = key!(arg_pub(args, 1));
+            let mut flipped = ser.clone();
+            flipped[bit / 8] ^= 1u8 << (7 - bit % 8);
+            format!("{},{}", dec_ser(&ser, haspk, &b, &a), dec_ser(&flipped, haspk, &b, &a))
+        }
+        "ecies.self" => {
+            if args.len() != 3 {
+                return Some("BADARG".into());
+            }
+            let comp = arg!(arg_bool(args, 1));
+            let msg = arg!(arg_bytes(args, 2));
+            let d = key!(arg_priv(args, 0)).compress_public_key(comp);
+            let own = match d.to_public_key() {
+                Ok(p) => p,
+                Err(_) => return Some("ERR".into()),
+            };
+            match d.encrypt_message(&msg) {
+                Ok(c) => {
+                    let back = match d.decrypt_message(&c, &own) {
+                        Ok(p) => show_bytes(&p),
+                        Err(_) => "ERR".into(),
+                    };
+                    format!("OK:{};{}", show_bytes(&c.to_bytes()), back)
+                }
+                Err(_) => "ERR".into(),
+            }
+        }
+        "ecies.ephemeral" => {
+            if args.len() != 2 {
+                return Some("BADARG".into());
+            }
+            let msg = arg!(arg_bytes(args, 1));
+            let d = key!(arg_priv(args, 0));
+            let own = match d.to_public_key() {
+                Ok(p) => p,
+                Err(_) => return Some("ERR".into()),
+            };
+            show_msg(
+                ECIES::encrypt_with_ephemeral_private_key(&msg, &own)
+                    .and_then(|c| ECIESCiphertext::from_bytes(&c.to_bytes(), true))
+                    .and_then(|c| c.extract_public_key().and_then(|sender| ECIES::decrypt(&c, &d, &sender))),
+            )
+        }
+        _ => return None,
+    })
 }
